@@ -426,7 +426,7 @@ def write_dim_file(path, fmt, orient, header, name, items, sheets):
         return "the dims"
 
 
-ITEM_LISTS = {int: [[2005], [2001, 1999], [3, 1, 2], [2020, 2030, 2025], [7, 2000, 5], [5, 4, 3, 2, 1, 0], [0, 1], [-1, 0, 1]], str: [["only"], ["b", "a"], ["x y", "z", "w"], ["10", "9", "8"], ["steel", "316", "copper"], ["north", "Region", "south"], ["r", "s", "t"], ["01", "02", "NA"]]}  # last str list: a text item first, then a number-like one
+ITEM_LISTS = {float: [[0.5, 2.5, 1.5], [2.0, 1.0], [1e-3, 7.25], [1.5, 2, 3]], int: [[2005], [2001, 1999], [3, 1, 2], [2020, 2030, 2025], [7, 2000, 5], [5, 4, 3, 2, 1, 0], [0, 1], [-1, 0, 1]], str: [["only"], ["b", "a"], ["x y", "z", "w"], ["10", "9", "8"], ["steel", "316", "copper"], ["north", "Region", "south"], ["r", "s", "t"], ["01", "02", "NA"]]}  # last str list: a text item first, then a number-like one
 
 
 def run_dimfile_case(fmt, orient, header, dtype_name, li, sheets):
@@ -434,7 +434,7 @@ def run_dimfile_case(fmt, orient, header, dtype_name, li, sheets):
     from flodym import DimensionDefinition
 
     case = dict(kind="dimfile", fmt=fmt, orient=orient, header=header, dtype=dtype_name, li=li, sheets=sheets)
-    dtype = {"int": int, "str": str}[dtype_name]
+    dtype = {"int": int, "str": str, "float": float}[dtype_name]
     items = ITEM_LISTS[dtype][li]
 
     def fail(what):
@@ -646,8 +646,8 @@ def run_unit(u):
             rec(*run_invalid_case(w))
     elif k == "dimfiles":
         for header in (False, True):
-            for dt in ("int", "str"):
-                for li in range(8):  # (text list 7: leading zeros and the text "NA")  # (text lists 5 and 6: the dimension's own name as an item; its letter "r" as first item)
+            for dt in ("int", "str", "float"):
+                for li in range(8 if dt != "float" else 4):  # (text list 7: leading zeros and the text "NA")  # (text lists 5 and 6: the dimension's own name as an item; its letter "r" as first item)
                     for sheets in (("single",) if u["fmt"] == "csv" else ("single", "first-of-several", "named-second")):
                         rec(*run_dimfile_case(u["fmt"], u["orient"], header, dt, li, sheets))
         if u["fmt"] == "excel" and u["orient"] == "row":
